@@ -34,7 +34,7 @@ Register Session a non-zero new handle); nothing is ever sent for a frame outsid
 abort; input is left unconsumed only after the session was closed. -/
 theorem one_reply_each (cfg : Cfg) (s : Srv) (fs : List Frame) (hp : ∀ f ∈ fs, f.parsable = true) :
     (serve cfg s fs).consumed ≤ fs.length ∧
-    Matched Echoes (expected (fs.take (serve cfg s fs).consumed)) (serve cfg s fs).replies ∧
+    Matched Echoes (expected cfg (fs.take (serve cfg s fs).consumed)) (serve cfg s fs).replies ∧
     ((serve cfg s fs).end = .open → (serve cfg s fs).consumed = fs.length) ∧
     (serve cfg s fs).end ≠ .aborted :=
   serveWith_answers true cfg s fs hp
@@ -44,7 +44,7 @@ each consumed frame that is well-formed and not Unregister; an unparsable frame 
 is exactly then that the loop ends by an exception. -/
 theorem replies_general (cfg : Cfg) (s : Srv) (fs : List Frame) :
     (serve cfg s fs).consumed ≤ fs.length ∧
-    Matched Echoes ((fs.take (serve cfg s fs).consumed).filter fun f => f.parsable && !f.isUnregister)
+    Matched Echoes ((fs.take (serve cfg s fs).consumed).filter fun f => f.parsable && !f.silent cfg)
       (serve cfg s fs).replies ∧
     ((serve cfg s fs).end = .open → (serve cfg s fs).consumed = fs.length) ∧
     ((serve cfg s fs).end = .aborted ↔
@@ -59,7 +59,7 @@ theorem replies_general (cfg : Cfg) (s : Srv) (fs : List Frame) :
       refine ⟨by simp, ?_, by simp, by simp [hpf]⟩
       simp [hpf, Matched.nil]
     | true =>
-      cases hu : f.isUnregister with
+      cases hu : f.silent cfg with
       | true =>
         simp only [serveWith, process_unregister true cfg s f hu]
         refine ⟨by simp, ?_, by simp, by simp [hpf]⟩
@@ -104,14 +104,14 @@ theorem replies_general (cfg : Cfg) (s : Srv) (fs : List Frame) :
 
 /-- the number of replies is the number of consumed frames that are not Unregister Session -/
 theorem reply_count (cfg : Cfg) (s : Srv) (fs : List Frame) (hp : ∀ f ∈ fs, f.parsable = true) :
-    (serve cfg s fs).replies.length = (expected (fs.take (serve cfg s fs).consumed)).length :=
+    (serve cfg s fs).replies.length = (expected cfg (fs.take (serve cfg s fs).consumed)).length :=
   ((one_reply_each cfg s fs hp).2.1.length_eq).symm
 
 /-- **Request order**: the k-th reply answers the k-th answerable request -- it carries that request's sender
 context, whatever the contexts are (equal ones included). -/
 theorem in_request_order (cfg : Cfg) (s : Srv) (fs : List Frame) (hp : ∀ f ∈ fs, f.parsable = true)
     (k : Nat) (f : Frame) (r : ReplyFrame)
-    (hf : (expected (fs.take (serve cfg s fs).consumed))[k]? = some f)
+    (hf : (expected cfg (fs.take (serve cfg s fs).consumed))[k]? = some f)
     (hr : (serve cfg s fs).replies[k]? = some r) :
     r.context = f.hdr.context ∧ r.command = f.command :=
   let e := (one_reply_each cfg s fs hp).2.1.get k f r hf hr
@@ -123,15 +123,15 @@ so the consumed prefix ends exactly at the first Unregister or the first reply w
 theorem stops_only_when_told (cfg : Cfg) (s : Srv) (fs : List Frame) :
     (∀ r ∈ (serve cfg s fs).replies.dropLast, r.status = 0) ∧
     ((serve cfg s fs).end = .open → ∀ r ∈ (serve cfg s fs).replies, r.status = 0) ∧
-    (∀ k f, k + 1 < (serve cfg s fs).consumed → fs[k]? = some f → f.isUnregister = false) :=
+    (∀ k f, k + 1 < (serve cfg s fs).consumed → fs[k]? = some f → f.silent cfg = false) :=
   ⟨(serveWith_statuses true cfg s fs).1, (serveWith_statuses true cfg s fs).2,
    fun k f hk hf => serveWith_unregister_last true cfg s fs k f hk hf⟩
 
 /-- **Exactly one**: per frame, `process` yields one reply, or none (`Outcome` holds at most one frame);
 a well-formed frame other than Unregister gets one. -/
 theorem exactly_one (cfg : Cfg) (s : Srv) (f : Frame) (hp : f.parsable = true) :
-    (f.isUnregister = true → (process cfg s f).2 = .close) ∧
-    (f.isUnregister = false → ∃ r, (process cfg s f).2 = .reply r) :=
+    (f.silent cfg = true → (process cfg s f).2 = .close) ∧
+    (f.silent cfg = false → ∃ r, (process cfg s f).2 = .reply r) :=
   ⟨fun hu => by rw [process, process_unregister true cfg s f hu], fun hu => process_replies true cfg s f hp hu⟩
 
 /-! ## what a reply carries -/
@@ -148,16 +148,16 @@ theorem reply_echo (cfg : Cfg) (s : Srv) (f : Frame) (r : ReplyFrame) (h : (proc
 /-- **Register Session** succeeds as soon as the random source can deliver a non-zero value: the reply has
 status 0, the request's protocol version and options, and a non-zero handle, which the server records. -/
 theorem register_handle (cfg : Cfg) (s : Srv) (f : Frame) (proto opts : Nat) (extra : Bytes)
-    (hb : f.body = .register proto opts extra) (x : Nat) (hx : x ∈ s.rand) (h0 : x ≠ 0) :
+    (hb : f.body = .register proto opts extra) (hf : fits cfg f = true) (x : Nat) (hx : x ∈ s.rand) (h0 : x ≠ 0) :
     ∃ h rest, h ≠ 0 ∧ process cfg s f =
       ({ s with rand := rest, session := some h },
        .reply { echo f 0 (Bytes.le 2 proto ++ Bytes.le 2 opts) with session := h }) := by
   obtain ⟨h, rest, hp⟩ := pickNonzero_some_of_mem hx h0
   refine ⟨h, rest, pickNonzero_ne_zero hp, ?_⟩
-  simp [process, processWith, hb, hp]
+  simp [process, processWith_fits _ _ _ _ hf, processBody, hb, hp]
 
 /-- **Unregister Session** returns nothing and ends the session, whatever follows it in the input. -/
-theorem unregister_silent (cfg : Cfg) (s : Srv) (f : Frame) (rest : List Frame) (hu : f.isUnregister = true) :
+theorem unregister_silent (cfg : Cfg) (s : Srv) (f : Frame) (rest : List Frame) (hu : f.silent cfg = true) :
     serve cfg s (f :: rest) = ⟨{ s with session := none }, [], 1, .closed⟩ := by
   simp [serve, serveWith, process_unregister true cfg s f hu]
 
@@ -202,21 +202,22 @@ own status field (0), whose payload is the request's interface handle and timeou
 [null address, unconnected data], and the data item starts with the request's service code with bit 0x80 set. -/
 theorem service_bit (cfg : Cfg) (s : Srv) (f : Frame) (u : Bool) (i t : Nat) (w : Wrap) (r : Req) (raw : Bytes)
     (d' : Dev) (bs : Bytes) (hb : f.body = .send u i t w (.req r raw))
-    (hl : routedVia cfg w = none) (hr : routable cfg w = true) (he : exec s.dev r = (d', some bs)) :
+    (hf : fits cfg f = true) (hl : routedVia cfg w = none) (hr : routable cfg w = true)
+    (he : exec s.dev r = (d', some bs)) :
     process cfg s f = ({ s with dev := d' },
       .reply (echo f f.hdr.status (Bytes.le 4 i ++ Bytes.le 2 t ++ cpfEncode [(0, []), (Generated.cpfUnconnected, bs)])))
     ∧ bs.head? = some (reqService r ||| 0x80) := by
   simp only [routable, Bool.and_eq_true] at hr
   obtain ⟨h1, h2⟩ := hr
   refine ⟨?_, exec_head he⟩
-  simp [process, processWith, hb, hl, h1, h2, cmRequest, he, sendFraming]
+  simp [process, processWith_fits _ _ _ _ hf, processBody, hb, hl, h1, h2, cmServe, cmRequest, he, sendFraming]
 
 /-- **Unsupported or unroutable.**  A SendRRData request that cannot be delivered (refused route path, Unconnected
 Send to something that is not a Connection Manager), whose service no Object parses, or
 whose reply cannot be produced, is answered by exactly one frame: no payload, non-zero status, same command,
 context, session handle and options -- and the session ends there. -/
 theorem unsupported_nonzero (cfg : Cfg) (s : Srv) (f : Frame) (u : Bool) (i t : Nat) (w : Wrap) (c : Cip)
-    (rest : List Frame) (hb : f.body = .send u i t w c) (hl : routedVia cfg w = none)
+    (rest : List Frame) (hb : f.body = .send u i t w c) (hf : fits cfg f = true) (hl : routedVia cfg w = none)
     (h : routable cfg w = false ∨ (∃ code p raw, c = .unknown code p raw)
           ∨ (∃ r raw, c = .req r raw ∧ (exec s.dev r).2 = none)) :
     (process cfg s f).2 = .reply (echo f (failStatus f.hdr.status) []) ∧
@@ -225,14 +226,14 @@ theorem unsupported_nonzero (cfg : Cfg) (s : Srv) (f : Frame) (u : Bool) (i t : 
     (serve cfg s (f :: rest)).consumed = 1 ∧ (serve cfg s (f :: rest)).end = .closed := by
   have hne := failStatus_ne_zero f.hdr.status
   have key : (process cfg s f).2 = .reply (echo f (failStatus f.hdr.status) []) := by
-    simp only [process, processWith, hb, hl, Bool.not_true, Bool.false_and, Bool.false_eq_true, ite_false]
+    simp only [process, processWith_fits _ _ _ _ hf, processBody, hb, hl, Bool.not_true, Bool.false_and, Bool.false_eq_true, ite_false]
     by_cases h1 : routeAccepts cfg.route w = true
     · by_cases h2 : usendToCM w = true
       · simp only [h1, h2, Bool.not_true, Bool.false_eq_true, ite_false]
         rcases h with h | ⟨code, p, raw, rfl⟩ | ⟨r, raw, rfl, he⟩
         · simp [routable, h1, h2] at h
-        · simp [cmRequest, refuse]
-        · simp only [cmRequest]
+        · simp [cmServe, cmRequest, refuse]
+        · simp only [cmServe, cmRequest]
           cases hx : exec s.dev r with
           | mk d' o =>
             rw [hx] at he
@@ -256,17 +257,51 @@ a routable Read/Write Tag [Fragmented] request -- valid, or failing with any CIP
 device stays well-formed, so the same holds for every later request of the session. -/
 theorem tag_request_answered (cfg : Cfg) (s : Srv) (hwf : s.dev.WF) (f : Frame) (u : Bool) (i t : Nat) (w : Wrap)
     (sreq : Simple) (raw : Bytes) (hs : isTagService sreq = true)
-    (hb : f.body = .send u i t w (.req (.simple sreq) raw))
+    (hb : f.body = .send u i t w (.req (.simple sreq) raw)) (hf : fits cfg f = true)
     (hl : routedVia cfg w = none) (hr : routable cfg w = true) :
     ∃ bs, (process cfg s f).2 = .reply (echo f f.hdr.status (sendFraming i t bs))
       ∧ bs.head? = some (simpleService sreq ||| 0x80) ∧ (process cfg s f).1.dev.WF := by
   obtain ⟨hwf', bs, hbs⟩ := execSimple_preserves_wf_tag s.dev hwf sreq (by cases sreq <;> simp_all [isTagService])
   have he : exec s.dev (.simple sreq) = ((execSimple s.dev sreq).1, some bs) := by
     simp only [exec, hbs]
-  obtain ⟨h1, h2⟩ := service_bit cfg s f u i t w (.simple sreq) raw _ bs hb hl hr he
+  obtain ⟨h1, h2⟩ := service_bit cfg s f u i t w (.simple sreq) raw _ bs hb hf hl hr he
   refine ⟨bs, ?_, h2, ?_⟩
   · rw [h1]; rfl
   · rw [h1]; exact hwf'
+
+/-! ## the Connection Manager's own services, and the request size limit -/
+
+/-- **[Large] Forward Open and Forward Close are always answered with their own service code.**  Whatever the
+parameters, whatever the Connection Manager already knows (a refused Forward Open is a reply with CIP status
+0x08), a routable request gets one full frame whose data item starts with the request's service code with bit 0x80
+set: 0x54 -> 0xd4, 0x5b -> 0xdb, 0x4e -> 0xce. -/
+theorem cm_request_answered (cfg : Cfg) (s : Srv) (f : Frame) (u : Bool) (i t : Nat) (w : Wrap) (r : CmReq)
+    (raw : Bytes) (hb : f.body = .send u i t w (.cm r raw)) (hf : fits cfg f = true)
+    (hl : routedVia cfg w = none) (hr : routable cfg w = true) :
+    ∃ bs, (process cfg s f).2 = .reply (echo f f.hdr.status (sendFraming i t bs))
+      ∧ bs.head? = some (Cip.service (.cm r raw) ||| 0x80) := by
+  simp only [routable, Bool.and_eq_true] at hr
+  obtain ⟨h1, h2⟩ := hr
+  refine ⟨(execCm s r).2, ?_, execCm_head s r raw⟩
+  simp [process, processWith_fits _ _ _ _ hf, processBody, hb, hl, h1, h2, cmServe]
+
+/-- **Over the size limit.**  A well-formed frame whose payload exceeds the configured limit is answered by exactly
+one header-only frame with the non-zero status 0x65, and the session ends; a frame of *exactly* the permitted size
+is within the limit (`fits`), and every theorem above applies to it. -/
+theorem oversize_refused (cfg : Cfg) (s : Srv) (f : Frame) (rest : List Frame) (hp : f.parsable = true)
+    (hf : fits cfg f = false) :
+    process cfg s f = (s, .reply (echo f sizeFailStatus [])) ∧ sizeFailStatus ≠ 0 ∧
+    serve cfg s (f :: rest) = ⟨s, [echo f sizeFailStatus []], 1, .closed⟩ := by
+  have h1 := process_oversize true cfg s f hp hf
+  refine ⟨h1, sizeFailStatus_ne_zero, ?_⟩
+  simp only [serve]
+  rw [serveWith, h1]
+  simp [echo, sizeFailStatus_ne_zero]
+
+theorem fits_iff (cfg : Cfg) (f : Frame) :
+    fits cfg f = true ↔ ∀ n, cfg.size = some n → f.hdr.length ≤ n := by
+  unfold fits
+  cases cfg.size <;> simp
 
 /-! ## requests forwarded through the routing table -/
 
@@ -279,7 +314,7 @@ produce the reply, the originator gets one frame, status 0, [null address, uncon
 starting with the request's service code with bit 0x80 set -- the reply to *this* request, computed from the
 current device state, whatever happened to earlier routed requests. -/
 theorem routed_service_bit (cfg : Cfg) (s : Srv) (f : Frame) (u : Bool) (i t : Nat) (w inner : Wrap) (r : Req)
-    (raw : Bytes) (d' : Dev) (bs : Bytes) (hb : f.body = .send u i t w (.req r raw))
+    (raw : Bytes) (d' : Dev) (bs : Bytes) (hb : f.body = .send u i t w (.req r raw)) (hf : fits cfg f = true)
     (hv : routedVia cfg w = some inner) (hc : connAvailable s) (hr : routable cfg inner = true)
     (he : exec s.dev r = (d', some bs)) :
     (process cfg s f).2 = .reply (echo f 0 (sendFraming i t bs)) ∧ bs.head? = some (reqService r ||| 0x80)
@@ -288,30 +323,30 @@ theorem routed_service_bit (cfg : Cfg) (s : Srv) (f : Frame) (u : Bool) (i t : N
   obtain ⟨h1, h2⟩ := hr
   refine ⟨?_, exec_head he, ?_⟩
   all_goals
-    simp only [process, processWith, hb, hv]
+    simp only [process, processWith_fits _ _ _ _ hf, processBody, hb, hv]
     by_cases hcn : s.routeConn = true
-    · simp [hcn, h1, h2, cmRequest, he]
+    · simp [hcn, h1, h2, cmServe, cmRequest, he]
     · have hx : ∃ x ∈ s.rand, x ≠ 0 := by
         rcases hc with h | h
         · exact absurd h hcn
         · exact h
       obtain ⟨x, hxm, hx0⟩ := hx
       obtain ⟨hd, rest, hp⟩ := pickNonzero_some_of_mem hxm hx0
-      simp [hcn, hp, h1, h2, cmRequest, he]
+      simp [hcn, hp, h1, h2, cmServe, cmRequest, he]
 
 /-- **A routed request that fails** -- no connection to the route's device can be made, that device refuses the
 rest of the route or the send path, no Object parses the service, or the reply cannot be produced -- is answered
 by exactly one header-only frame with the non-zero status 0x65, and leaves *no* connection behind: the next routed
 request starts from a fresh one. -/
 theorem routed_failure_nonzero (cfg : Cfg) (s : Srv) (f : Frame) (u : Bool) (i t : Nat) (w inner : Wrap) (c : Cip)
-    (hb : f.body = .send u i t w c) (hv : routedVia cfg w = some inner)
+    (hb : f.body = .send u i t w c) (hf : fits cfg f = true) (hv : routedVia cfg w = some inner)
     (h : ¬ connAvailable s ∨ routable cfg inner = false ∨ (∃ code p raw, c = .unknown code p raw)
           ∨ (∃ r raw, c = .req r raw ∧ (exec s.dev r).2 = none)) :
     (process cfg s f).2 = .reply (echo f routeFailStatus []) ∧ routeFailStatus ≠ 0 ∧
     (process cfg s f).1.routeConn = false := by
   have hne : routeFailStatus ≠ 0 := by decide
   have key : (process cfg s f).2 = .reply (echo f routeFailStatus []) ∧ (process cfg s f).1.routeConn = false := by
-    simp only [process, processWith, hb, hv]
+    simp only [process, processWith_fits _ _ _ _ hf, processBody, hb, hv]
     by_cases hcn : s.routeConn = true
     · simp only [hcn, ite_true]
       cases h1 : routeAccepts cfg.route inner with
@@ -323,13 +358,13 @@ theorem routed_failure_nonzero (cfg : Cfg) (s : Srv) (f : Frame) (u : Bool) (i t
           rcases h with h | h | ⟨code, p, raw, rfl⟩ | ⟨r, raw, rfl, he⟩
           · exact absurd (Or.inl hcn) h
           · simp [routable, h1, h2] at h
-          · simp [cmRequest]
+          · simp [cmServe, cmRequest]
           · cases hx : exec s.dev r with
             | mk d' o =>
               rw [hx] at he
               simp only at he
               subst he
-              simp [cmRequest, hx]
+              simp [cmServe, cmRequest, hx]
     · cases hp : pickNonzero s.rand with
       | none => simp [hcn]
       | some pr =>
@@ -347,25 +382,28 @@ theorem routed_failure_nonzero (cfg : Cfg) (s : Srv) (f : Frame) (u : Bool) (i t
               right
               exact ⟨hd, pickNonzero_mem hp, pickNonzero_ne_zero hp⟩
             · simp [routable, h1, h2] at h
-            · simp [cmRequest]
+            · simp [cmServe, cmRequest]
             · cases hx : exec s.dev r with
               | mk d' o =>
                 rw [hx] at he
                 simp only at he
                 subst he
-                simp [cmRequest, hx]
+                simp [cmServe, cmRequest, hx]
   exact ⟨key.1, hne, key.2⟩
 
 /-- connections served one after the other: each is `serve` from the state the previous one left, so every theorem
 above (they hold for every state) applies to each connection of a sequence -/
 theorem serveSessions_cons (cfg : Cfg) (s : Srv) (fs : List Frame) (rest : List (List Frame)) :
-    serveSessions cfg s (fs :: rest) = serve cfg s fs :: serveSessions cfg (serve cfg s fs).srv rest := rfl
+    serveSessions cfg s (fs :: rest) =
+      serve cfg s fs :: serveSessions cfg
+        (if (serve cfg s fs).end == .closed then (serve cfg s fs).srv else { (serve cfg s fs).srv with forwards := [] })
+        rest := rfl
 
 /-- a frame whose item list is not [null address, unconnected data] is refused in the same way -/
 theorem bad_items_refused (cfg : Cfg) (s : Srv) (f : Frame) (u : Bool) (i t : Nat) (items : List (Nat × Bytes))
-    (hb : f.body = .sendItems u i t items) :
+    (hb : f.body = .sendItems u i t items) (hf : fits cfg f = true) :
     process cfg s f = (s, .reply (echo f (failStatus f.hdr.status) [])) := by
-  simp [process, processWith, hb, refuse]
+  simp [process, processWith_fits _ _ _ _ hf, processBody, hb, refuse]
 
 /-- frames outside the grammar (short Register, unknown command) are not answered at all:
 `logix.process` raises and `enip_srv_tcp` drops the connection -/
@@ -521,6 +559,29 @@ example : routedVia { routes := [(1, 9)] } (.usend 6 1 5 157 [(1, 9)]) = some .d
   · cases h
   · simp only [List.mem_cons, List.not_mem_nil, or_false] at hx
     rcases hx with rfl | rfl <;> exact h0 rfl
+
+/-- a Large Forward Open (point-to-point both ways: the Target draws the O->T connection ID 0x111) is answered by
+0xdb; a second one for the same O->T connection ID of a Null connection is refused with CIP status 8 -- still 0xdb -/
+def lfo (ncp : Nat) : Frame :=
+  { hdr := { session := 9, context := ctx 3 },
+    body := .send false 0 5 .direct
+      (.cm (.fwdOpen true 5 157 1 2 7 0x1234 0xdeadbeef 1 1000 ncp 2000 ncp 0xa3 [.cls 2, .ins 1]) []) }
+
+example :
+    (serve {} { demoSrv with rand := [0x111] } [lfo (0x42000000 + 4000), lfo 4000, lfo 4000]).replies.map
+        (fun r => (r.status, (r.payload.drop 16).take 8))
+      = [(0, [0xdb, 0, 0, 0, 0x11, 0x01, 0, 0]), (0, [0xdb, 0, 0, 0, 1, 0, 0, 0]), (0, [0xdb, 0, 8, 0, 7, 0, 0x34, 0x12])] := by
+  decide +kernel
+
+/-- size limit 4: a Register Session of exactly 4 payload octets is served, one of 5 is refused with 0x65 -/
+example :
+    (process { size := some 4 } demoSrv
+        { hdr := { session := 0, context := ctx 1, length := 4 }, body := .register 1 0 [] }).2 =
+        .reply { command := 0x65, session := 77, status := 0, context := ctx 1, options := 0, payload := [1, 0, 0, 0] }
+    ∧ (process { size := some 4 } demoSrv
+        { hdr := { session := 0, context := ctx 1, length := 5 }, body := .register 1 0 [9] }).2 =
+        .reply { command := 0x65, session := 0, status := 0x65, context := ctx 1, options := 0, payload := [] } := by
+  decide +kernel
 
 /-- batches: [register, read] then [write] then the rest = all at once (instance of `pipelining_irrelevant`) -/
 example : serveBatches {} demoSrv [demoFrames.take 2, [], (demoFrames.drop 2).take 1, demoFrames.drop 3]
